@@ -227,6 +227,11 @@ type c13Level struct {
 	wmode font.WritingMode
 
 	// the hand-made structure of kind "hand"
+	// crossing holds the rows (as rectangles) touched by ranges whose first and
+	// last code are ordered lexicographically but not byte by byte, e.g.
+	// <00FE>-<0101>.  What such a range maps is not part of the model; only the
+	// agreement of enumeration and lookup is judged on these rows.
+	crossing  []c13Rect
 	hSingles  []cmap.Single
 	hRanges   []cmap.Range
 	tuSingles []cmap.ToUnicodeSingle
@@ -747,6 +752,71 @@ func c13FillHand(c *kit.Case, l *c13Level) {
 			c.Inc("hand_bfrange_list")
 		}
 	}
+	if rng.Chance(1, 4) {
+		c13AddCrossing(c, l, taken)
+	}
+}
+
+// c13AddCrossing adds to a hand-written level one range that crosses the
+// last-byte boundary (first > last at the last byte), on two rows of a
+// multi-byte code space range which no other entry of the level uses.
+func c13AddCrossing(c *kit.Case, l *c13Level, taken []c13Rect) {
+	rng := c.Rng
+	for try := 0; try < 8; try++ {
+		r := &l.csr[rng.Intn(len(l.csr))]
+		n := r.n
+		if n < 2 || r.lo[n-2] >= r.hi[n-2] || int(r.hi[n-1])-int(r.lo[n-1]) < 4 {
+			continue
+		}
+		first := c13StartCode(rng, r)
+		if first[n-2] == r.hi[n-2] {
+			first[n-2]--
+			if first[n-2] < r.lo[n-2] {
+				continue
+			}
+		}
+		last := bytes.Clone(first)
+		last[n-2]++
+		first[n-1] = r.hi[n-1] - byte(rng.Intn(2))
+		last[n-1] = r.lo[n-1] + byte(rng.Intn(2))
+		rows := c13Rect{first: bytes.Clone(first), last: bytes.Clone(last)}
+		rows.first[n-1], rows.last[n-1] = r.lo[n-1], r.hi[n-1]
+		free := true
+		for i := range taken {
+			if c13RectsMeet(&taken[i], &rows) {
+				free = false
+			}
+		}
+		if !free {
+			continue
+		}
+		l.crossing = append(l.crossing, rows)
+		l.hRanges = append(l.hRanges, cmap.Range{First: first, Last: last, Value: cid.CID(10 + rng.Intn(1000))})
+		l.tuRanges = append(l.tuRanges, cmap.ToUnicodeRange{First: first, Last: last, Values: []string{"x"}})
+		for _, p := range [][]byte{first, last, rows.first, rows.last} {
+			l.probes = append(l.probes, string(p))
+		}
+		c.Inc("hand_ranges_crossing_the_last_byte")
+		return
+	}
+}
+
+func (l *c13Level) inCrossing(code string) bool {
+	for i := range l.crossing {
+		if l.crossing[i].contains(code) {
+			return true
+		}
+	}
+	return false
+}
+
+func c13InCrossing(chain []*c13Level, code string) bool {
+	for _, l := range chain {
+		if l.inCrossing(code) {
+			return true
+		}
+	}
+	return false
 }
 
 // c13FillNotdef adds disjoint notdef entries to a level.
@@ -754,6 +824,45 @@ func c13FillNotdef(c *kit.Case, l *c13Level) {
 	rng := c.Rng
 	l.ndS = map[string]uint32{}
 	var taken []c13Rect
+	wide := -1
+	for i := range l.csr {
+		size := 1.0
+		for j := 0; j < l.csr[i].n; j++ {
+			size *= float64(int(l.csr[i].hi[j]) - int(l.csr[i].lo[j]) + 1)
+		}
+		if size > 1<<31 {
+			wide = i
+		}
+	}
+	if rng.Chance(1, 12) || wide >= 0 && rng.Bool() {
+		// one notdef range for a whole code space range (for four-byte codes
+		// that can be more than 2^31 codes); probes in its upper half
+		r := &l.csr[rng.Intn(len(l.csr))]
+		if wide >= 0 {
+			r = &l.csr[wide]
+		}
+		first, last := bytes.Clone(r.lo[:r.n]), bytes.Clone(r.hi[:r.n])
+		q := c13Rect{first: first, last: last, val: uint32(rng.Range(1, 9))}
+		taken = append(taken, q)
+		l.ndR = append(l.ndR, q)
+		c13AddProbes(l, first, last)
+		mid := bytes.Clone(last)
+		for j := 1; j < r.n; j++ {
+			mid[j] = r.lo[j] + byte(rng.Intn(int(r.hi[j])-int(r.lo[j])+1))
+		}
+		l.probes = append(l.probes, string(mid))
+		mid2 := bytes.Clone(mid)
+		mid2[0] = byte((int(r.lo[0]) + int(r.hi[0]) + 1) / 2)
+		l.probes = append(l.probes, string(mid2))
+		c.Inc("notdef_ranges_for_a_whole_code_space_range")
+		size := 1.0
+		for j := 0; j < r.n; j++ {
+			size *= float64(int(r.hi[j]) - int(r.lo[j]) + 1)
+		}
+		if size > 1<<31 {
+			c.Inc("notdef_ranges_above_2^31_codes")
+		}
+	}
 	for i := rng.Intn(4); i > 0; i-- {
 		r := &l.csr[rng.Intn(len(l.csr))]
 		first := c13StartCode(rng, r)
@@ -1062,7 +1171,7 @@ func (m *c13Mon) checkCID(stage string, f *cmap.File, chain []*c13Level) {
 	for _, l := range chain {
 		for _, p := range l.probes {
 			want, src := c13WantCID(chain, p)
-			if src == "mapped" {
+			if src == "mapped" || c13InCrossing(chain, p) {
 				continue
 			}
 			c.Inc("cid_lookups_unmapped")
@@ -1107,6 +1216,15 @@ func (m *c13Mon) checkCID(stage string, f *cmap.File, chain []*c13Level) {
 	}
 	c.R.Count("cid_enumerated", int64(yields))
 	for k, v := range got {
+		if _, mapped := eff[k]; !mapped && c13InCrossing(chain, k) {
+			// enumeration and lookup agree
+			if lv := f.LookupCID([]byte(k)); uint32(lv) != v {
+				m.fail("cid/"+stage+"/all-and-lookup-disagree", "%s: All yields <%X> -> %d, LookupCID gives %d (range crossing the last-byte boundary)", what, k, v, lv)
+				break
+			}
+			c.Inc("crossing_rows_enumerated_codes_checked")
+			continue
+		}
 		if w, ok := eff[k]; !ok || w != v {
 			m.fail("cid/"+stage+"/all/extra-or-wrong", "%s: All yields <%X> -> %d, the map has %d (present: %v)", what, k, v, w, ok)
 			break
@@ -1167,7 +1285,7 @@ func (m *c13Mon) checkTU(stage string, tu *cmap.ToUnicodeFile, chain []*c13Level
 	c.R.Count("tu_lookups_mapped", int64(len(eff)))
 	for _, l := range chain {
 		for _, p := range l.probes {
-			if _, ok := eff[p]; ok {
+			if _, ok := eff[p]; ok || c13InCrossing(chain, p) {
 				continue
 			}
 			c.Inc("tu_lookups_unmapped")
@@ -1191,6 +1309,7 @@ func (m *c13Mon) checkTU(stage string, tu *cmap.ToUnicodeFile, chain []*c13Level
 		got[string(b)] = v
 	}
 	c.R.Count("tu_enumerated", int64(yields))
+	m.agreeText(chain, tu, "tu/"+stage+"/all-and-lookup-disagree", what+": All", got, eff)
 	m.compareText(chain, "tu/"+stage+"/all", what+": All", got, eff)
 
 	// GetMapping uses the code space of the file itself
@@ -1209,11 +1328,27 @@ func (m *c13Mon) checkTU(stage string, tu *cmap.ToUnicodeFile, chain []*c13Level
 		if same, _ := c13SameCodes(chain[0].csr, union); !same {
 			key += "/parent-has-other-codespace"
 		}
+		m.agreeText(chain, tu, "tu/"+stage+"/getmapping-and-lookup-disagree", what+": GetMapping", got, want)
 		m.compareText(chain, key, what+": GetMapping", got, want)
 	}
 
 	if len(chain) > 1 && tu.Parent != nil {
 		m.checkTU(stage, tu.Parent, chain[1:])
+	}
+}
+
+// agreeText removes the codes on crossing rows from got after checking that
+// Lookup gives the same text for them.
+func (m *c13Mon) agreeText(chain []*c13Level, tu *cmap.ToUnicodeFile, key, what string, got, want map[string]string) {
+	for k, v := range got {
+		if _, mapped := want[k]; mapped || !c13InCrossing(chain, k) {
+			continue
+		}
+		delete(got, k)
+		if lv, ok := tu.Lookup([]byte(k)); !ok || lv != v {
+			m.fail(key, "%s gives <%X> -> %+q, Lookup gives %+q, %v (range crossing the last-byte boundary)", what, k, v, lv, ok)
+			return
+		}
 	}
 }
 
